@@ -403,6 +403,15 @@ def replay(rec):
             write_ndarray_to_yanny(fn, rec_, structnames='en', enums={'kind': (ename, ('ALPHA', 'BETA', 'GAMMA'))})
             back = yanny(fn)          # an exception here = reproduced for 'exception:' labels (harness.replay)
             return bool(back['EN']['kind'].tolist() != [b'ALPHA', b'BETA'] or not back.isenum('EN', 'kind') or back.isenum('EN', 'name'))
+        if d.get('fn') == 'misc' and d.get('case') == 'zero-rows':
+            sv = ('a' + chr(int(inp.get('m_0', 65)))).encode('latin-1')
+            r0 = np.zeros(0, dtype=[('id', 'i4'), ('name', 'S5'), ('x', 'f8', (3,))])
+            r1 = np.zeros(1, dtype=[('k', 'i2'), ('t', 'S3')])
+            r1['k'], r1['t'] = 3, sv
+            write_ndarray_to_yanny(fn, (r0, r1), structnames=('empty', 'full'))     # an exception = reproduced for 'exception:' labels
+            back = yanny(fn)
+            return bool(sorted(back.tables()) != ['EMPTY', 'FULL'] or back.size('EMPTY') != 0 or list(back.columns('EMPTY')) != ['id', 'name', 'x']
+                        or back['FULL']['t'].tolist() != [sv])
         if d.get('fn') == 'misc' and d.get('case') in ('header-keys', 'header-keys-table'):
             key = d.get('key', HDR_KEYS[int(inp.get('hdr_key', 0))])
             hv = 'v' + chr(int(inp.get('m_0', 65)))
